@@ -71,6 +71,11 @@ const Cfg cfgs[] = {
 	{"dgrep", {"-i", "%Y%m%d", ">=2012-03-01"}, 1, 4, true},
 	{"dconv", {"-i", "%s", "-f", "%FT%T"}, 1, 5, true},
 	{"dconv", {"-S", "-i", "%Y%m%d", "-f", "%F"}, 1, 4, true},
+	/* the strptime helper: libc's strptime() fills a struct tm field by field and leaves it as it is when it gives up */
+	{"strptime", {"-i", "%Y-%m-%d %H:%M:%S", "-i", "%d/%m/%Y", "-f", "%Y-%m-%d %H:%M:%S"}, 1, 6, true},
+	{"strptime", {"-i", "%Y-%m-%d %H:%M:%S", "-i", "%d/%m/%Y", "-f", "%Y-%m-%d %H:%M:%S"}, 0, 6, true},
+	{"strptime", {"-i", "%d/%m/%Y", "-i", "%H:%M", "-i", "%Y-%m-%d %H:%M:%S", "-t"}, 1, 6, true},
+	{"strptime", {"-i", "%Y-%j %H", "-i", "%d/%m/%Y", "-f", "%j %H %d %m %Y %a", "-q"}, 1, 6, true},
 	{"dzone", {}, 0, 3, false},
 	{"dzone", {"--next"}, 0, 3, false},
 	{"dzone", {"--prev", "--next"}, 0, 3, false},
@@ -126,6 +131,35 @@ std::string rand_compact(Rng &r, int vkind)
 	}
 	int y = (int)r.range(1950, 2050), m = (int)r.range(1, 12);
 	snprintf(b, sizeof(b), "%04d%02d%02d", y, m, (int)r.range(1, model::mdays(y, m)));
+	return b;
+}
+std::string rand_strptime_value(Rng &r)
+{
+	char b[64];
+	int y = (int)r.range(1971, 2037), m = (int)r.range(1, 12), d = (int)r.range(1, 28);
+	int H = (int)r.below(24), M = (int)r.below(60), S = (int)r.below(60);
+	switch (r.below(8)) {
+	case 0:
+	case 1:
+		snprintf(b, sizeof(b), "%04d-%02d-%02d %02d:%02d:%02d", y, m, d, H, M, S);
+		break;
+	case 2:
+	case 3:
+		snprintf(b, sizeof(b), "%02d/%02d/%04d", d, m, y);
+		break;
+	case 4:
+		snprintf(b, sizeof(b), "%04d-%02d-%02d %02d:%02d:xx", y, m, d, H, M);	/* read half way, then refused */
+		break;
+	case 5:
+		snprintf(b, sizeof(b), "%02d:%02d", H, M);
+		break;
+	case 6:
+		snprintf(b, sizeof(b), "%04d-%03d %02d", y, (int)r.range(1, 365), H);
+		break;
+	default:
+		snprintf(b, sizeof(b), "%04d-%02d-%02d %02d:", y, m, d, H);	/* refused after date and hour */
+		break;
+	}
 	return b;
 }
 std::string rand_dur(Rng &r)
@@ -338,13 +372,13 @@ struct HistEngine : Engine {
 			n = 60;
 		std::vector<std::string> pool;
 		size_t npool = longh ? (size_t)r.range(2, 6) : 0;
-		if (c.vkind >= 4 && !longh && r.chance(1, 2)) {
+		if (c.vkind >= 4 && c.vkind != 6 && !longh && r.chance(1, 2)) {
 			/* the digit scanner's counter lives across lines: a medium long stream of few values */
 			n = (size_t)r.range(130, 320);
 			npool = (size_t)r.range(2, 5);
 		}
 		for (size_t i = 0; i < npool; i++)
-			pool.push_back(c.vkind >= 4 ? rand_compact(r, c.vkind) : c.vkind == 1 ? rand_dur(r) : c.vkind == 2 ? rand_text_line(r) : rand_value(r));
+			pool.push_back(c.vkind == 6 ? rand_strptime_value(r) : c.vkind >= 4 ? rand_compact(r, c.vkind) : c.vkind == 1 ? rand_dur(r) : c.vkind == 2 ? rand_text_line(r) : rand_value(r));
 		std::vector<std::string> vals;
 		if (c.vkind == 3) {
 			/* dzone: zones x date-times */
@@ -383,7 +417,7 @@ struct HistEngine : Engine {
 			return p;
 		}
 		for (size_t i = 0; i < n; i++)
-			vals.push_back(npool ? pool[r.below(npool)] : c.vkind >= 4 ? rand_compact(r, c.vkind) : c.vkind == 1 ? rand_dur(r) : c.vkind == 2 ? rand_text_line(r) : rand_value(r));
+			vals.push_back(npool ? pool[r.below(npool)] : c.vkind == 6 ? rand_strptime_value(r) : c.vkind >= 4 ? rand_compact(r, c.vkind) : c.vkind == 1 ? rand_dur(r) : c.vkind == 2 ? rand_text_line(r) : rand_value(r));
 		if (c.mode == 0) {
 			for (auto &v : vals) {
 				if (v.empty() || v[0] == '-')
